@@ -968,3 +968,82 @@ def server_envelope_round_trips_through_client(r: int, d: int, cfg: int, html: b
         return False
     # the note is surfaced in the message, where a traceback reader sees it
     return (hint in str(err)) if hint else True
+
+
+# ---------------------------------------------------------------------------
+# (c') a 401 is a function of the request and the configuration only — never of earlier requests
+# ---------------------------------------------------------------------------
+# The serializer keeps per-app body caches.  Every rejection must therefore be decided on a *history*:
+# request A, then request B on the same serializer, where kind, detail and — independently for each
+# request — the representation asked for (Accept) are symbolic.  B's response must satisfy the
+# specification on its own and be identical to what a fresh app answers to B.
+
+_NP = pick(1, 2)  # quick: a service with a proxy dependency (note present); thorough: also one without
+
+
+def _history_ok(cfg_i: int, k1: int, k2: int, same_detail: bool, html_a: bool, html_b: bool) -> bool:
+    hint = _config_hint(cfg_i)
+    shared = er._make_error_serializer(hint)
+    fresh = er._make_error_serializer(hint)
+    d1 = _DETAILS[1]
+    d2 = _DETAILS[1] if same_detail else _DETAILS[2]
+    e1, e2 = _mk_exc(k1, d1), _mk_exc(k2, d2)
+    acc_a = "text/html,application/xhtml+xml" if html_a else "*/*"
+    acc_b = "text/html" if html_b else "application/json"
+    qa, ra = _FReq(True, acc_a), _FResp()
+    qb, rb = _FReq(True, acc_b), _FResp()
+    qf, rf = _FReq(True, acc_b), _FResp()
+    ha, xa = _ladder(k1, e1, qa, ra)
+    hb, xb = _ladder(k2, e2, qb, rb)
+    if ha is None or hb is None or xa is not None or xb is not None:
+        return False
+    qf.context.vgi_auth_reason = getattr(qb.context, "vgi_auth_reason", None)
+    shared(qa, ra, ha)
+    shared(qb, rb, hb)
+    fresh(qf, rf, hb)
+    if not _check_401(ra, _expected_reason(k1), str(e1), hint, html_a):
+        return False
+    if not _check_401(rb, _expected_reason(k2), str(e2), hint, html_b):
+        return False
+    if html_b and _expected_reason(k2).value.encode() not in rb.data:
+        return False  # the page shows the same code as the header (§4.2 SHOULD; the reference does)
+    return rb.data == rf.data and rb.content_type == rf.content_type and rb.headers == rf.headers
+
+
+def _replay_history(args: dict) -> str | None:
+    cfg = _CFG2[1] if args["p"] == 0 else _CFG2[0]
+    k1, k2 = _REJ[args["i1"]], _REJ2[args["i2"]]
+    d2 = _DETAILS[1] if args["same_detail"] else _DETAILS[2]
+    acc_a = "text/html,application/xhtml+xml" if args["html_a"] else "*/*"
+    acc_b = "text/html" if args["html_b"] else "application/json"
+    svc = _RealService(cfg)
+    try:
+        first = _real_401_problem(k1, _DETAILS[1], cfg, acc_a, svc)
+        if first:
+            return "first request: " + first
+        second = svc.post(k2, d2, acc_b)
+    finally:
+        svc.close()
+    alone = _real_401(k2, d2, cfg, acc_b)
+    h2 = {k.lower(): v for k, v in second.headers.items()}
+    is_html = second.content.lstrip().lower().startswith(b"<!doctype html")
+    if second.content != alone.content or is_html != bool(args["html_b"]):
+        return (f"{_CONFIGS[cfg][0]}: after a 401 for Accept={acc_a!r} (reason {_expected_reason(k1).value}, detail {_DETAILS[1]!r}), the 401 for "
+                f"Accept={acc_b!r} (reason {_expected_reason(k2).value}, detail {d2!r}) is content-type {h2.get('content-type')!r} with body "
+                f"{second.content[:70]!r}...; a fresh app answers the same request with {alone.content[:70]!r}...")
+    return None
+
+
+@cond(q=60, t=600, encoded=[er._make_error_serializer, er._render_unauthorized_json, er._render_unauthorized_html, er._wants_html, mw._AuthMiddleware.process_request],
+      bound="history of two rejections on one app: (%d kinds) then (4 kinds), same or different detail, each request independently HTML or JSON, %d service configuration(s)" % (pick(6, 10), _NP),
+      replay=_replay_history, signature=lambda args, conc: "C21:401-shape:response-depends-on-earlier-requests")
+def rejection_independent_of_history(p: int, i1: int, i2: int, same_detail: bool, html_a: bool, html_b: bool) -> bool:
+    """
+    pre: 0 <= p < _NP and 0 <= i1 < _NR1 and 0 <= i2 <= 3
+    post: _
+    """
+    k2 = _REJ2[0]
+    for j in range(1, 4):
+        if i2 == j:
+            k2 = _REJ2[j]
+    return _history_ok(_CFG2[1] if p == 0 else _CFG2[0], _pick_rej(i1), k2, same_detail, html_a, html_b)
